@@ -141,8 +141,8 @@ def r6_2(ctx, R, mus):
                     ok = any(fld and fld[1:] in fs for fs in mus.values())
                     det = "target %s" % expr_str(tgt)
                 ctx.ob("R6.2", b, "%s@%s" % (api, _site_label(b, bb)), ok, b.loc(bb), det)
-    ctx.floor("R6.2", "ManuallyDrop::new-sites", counts.get("ManuallyDrop::new", 0), 1, 1)
-    ctx.floor("R6.2", "Box::into_raw-sites", counts.get("Box::into_raw", 0), 2, 2)
+    ctx.floor("R6.2", "ManuallyDrop::new-sites", counts.get("ManuallyDrop::new", 0), 1)
+    ctx.floor("R6.2", "Box::into_raw-sites", counts.get("Box::into_raw", 0), 2)
     ctx.floor("R6.2", "ptr::write-sites", counts.get("ptr::write", 0), 3)
     ctx.floor("R6.2", "MaybeUninit::write-sites", counts.get("MaybeUninit::write", 0), 2)
 
@@ -297,6 +297,84 @@ def r6_5(ctx, R):
     ctx.floor("R6.5", "child-owning-drops-examined", n, 2)
 
 
+def r6_6(ctx, R, mus):
+    ctx.rule("R6.6", "exhaustive release: every function that releases elements of a MaybeUninit buffer (assume_init_drop / "
+                     "drop_in_place / assume_init_read) obtains the elements from an iterator over the WHOLE buffer (adaptor "
+                     "chain within {iter_mut, enumerate, into_iter, rev, filter, by_ref}: no take/skip/take_while/step_by/...), "
+                     "its loop is left only when that iterator is exhausted (no break / early return), and the release is "
+                     "guarded by the vacancy test of the slot with the same index (slot i vacant <=> output[i] written)")
+    from lib_flow import iterator_chain, loop_exit_edges
+    accs = {a.path for a in R.accessor_fns}
+    n = 0
+    for sp, fields in mus.items():
+        for b in c07.impl_fns_of(ctx, sp) + [c for c in ctx.facts.fn_bodies() if c.kind == "Closure" and (c.j.get("parent_fn") or "").startswith(("<" + sp, sp + "::"))]:
+            fl = ctx.flow(b)
+            rel = direct_sites(b, RE_RELEASE)
+            if not rel:
+                continue
+            for bb, t, fn in rel:
+                n += 1
+                e = strip_refs(fl.operand_expr(t["args"][0]))
+                nexts = [c for c in expr_calls(e) if (c[1] or "").endswith("::next")]
+                if b.kind == "Closure" and not nexts:
+                    # iterator-adaptor form: the closure is handed to for_each / filter ...: inspect the chain in the parent
+                    pb = ctx.facts.bodies.get(b.j.get("parent_fn"))
+                    ok = False
+                    det = "closure not found in parent"
+                    if pb is not None:
+                        pfl = ctx.flow(pb)
+                        for pbb, pt, pfn in pb.calls():
+                            if pfn is None:
+                                continue
+                            for a in pt["args"]:
+                                ae = pfl.operand_expr(a)
+                                if ae[0] == "agg" and ae[1] == "closure:" + b.path:
+                                    chain, src = iterator_chain(pfl.operand_expr(pt["args"][0]))
+                                    bad = [c for c, full in chain if c not in ADAPTORS_OK]
+                                    srcfield = c07.field_of(src) or ""
+                                    from_buf = srcfield[1:] in fields or any(re.search(c07.RE_REPLACE, c[1] or "") for c in expr_calls(src))
+                                    vac = any(c[1] in accs for c in expr_calls(pfl.operand_expr(pt["args"][0]))) or \
+                                        any(cl in accs for cb_ in ctx.facts.fn_bodies() if cb_.kind == "Closure" and cb_.j.get("parent_fn") == pb.path
+                                            for _, _, f2 in cb_.calls() if f2 for cl in [fn_name(f2)])
+                                    ok = not bad and from_buf and vac
+                                    det = "chain %s over %s; truncating/unknown adaptors: %s; vacancy test present: %s" % (
+                                        [c for c, _ in chain], expr_str(src), bad, vac)
+                    ctx.ob("R6.6", b, "release-covers-whole-buffer(adaptor form)@%s" % _site_label(b, bb), ok, b.loc(bb), det)
+                    continue
+                if not nexts:
+                    ctx.ob("R6.6", b, "released-element-comes-from-an-iterator@%s" % _site_label(b, bb), False, b.loc(bb), expr_str(e))
+                    continue
+                nx = nexts[0]
+                chain, src = iterator_chain(nx[2][0])
+                bad = [c for c, full in chain if c not in ADAPTORS_OK]
+                srcfield = c07.field_of(src) or ""
+                from_buf = srcfield[1:] in fields or any(re.search(c07.RE_REPLACE, c[1] or "") for c in expr_calls(src))
+                ctx.ob("R6.6", b, "iterates-whole-buffer@%s" % _site_label(b, bb), not bad and from_buf, b.loc(bb),
+                       "chain %s over %s; truncating/unknown adaptors: %s" % ([c for c, _ in chain], expr_str(src), bad))
+                exits = loop_exit_edges(b, fl, nx[3])
+                early = [(a_, b_) for a_, b_, is_none in (exits or []) if not is_none]
+                ctx.ob("R6.6", b, "loop-left-only-on-exhaustion@%s" % _site_label(b, bb), exits is not None and not early, b.loc(nx[3]),
+                       "early exits: %s" % [b.loc(a_) for a_, b_ in early])
+                # vacancy guard with the same index
+                ok_g = False
+                for sb in range(b.n):
+                    for tgt, labs in fl.edge_labels(sb).items():
+                        for lab in labs:
+                            if lab[0] == "bool" and lab[2] is True and lab[1][0] == "call" and (lab[1][1] or "").endswith("::is_none") \
+                                    and b.dominates(tgt, bb) and len(b.pred[tgt]) == 1:
+                                acc = [c for c in expr_calls(lab[1]) if c[1] in accs]
+                                if acc:
+                                    idx = acc[0][2][-1]
+                                    same_iter = any(c[3] == nx[3] for c in expr_calls(idx)) if idx[0] != "call" or True else False
+                                    if same_iter and idx[0] == "proj" and idx[2][-1] == ".0":
+                                        ok_g = True
+                ctx.ob("R6.6", b, "release-guarded-by-vacancy-of-same-index@%s" % _site_label(b, bb), ok_g, b.loc(bb))
+    ctx.floor("R6.6", "release-sites", n, 2)
+
+
+ADAPTORS_OK = ("into_iter", "iter_mut", "iter", "enumerate", "rev", "filter", "by_ref", "as_mut", "deref_mut", "deref")
+
+
 def run(ctx):
     R = roles(ctx)
     R.insert_fn, R.remove_fn
@@ -306,3 +384,28 @@ def run(ctx):
     r6_3(ctx, R)
     r6_4(ctx, R, mus)
     r6_5(ctx, R)
+    r6_6(ctx, R, mus)
+    # children are dropped in place when vacated, the waker allocation is released exactly once (shared rules)
+    import c02
+    import c03
+    c02.r2_1(ctx, R)
+    c02.r2_3(ctx, R)
+    ctx.rule("R2.1", "see C02 R2.1 (shared): a finished child's slot is vacated (dropped in place) exactly when it returned Ready")
+    ctx.rule("R2.3", "see C02 R2.3 (shared): slot-map insert/remove all-or-none")
+    inc, dec = c03.rc_fns(ctx)
+    free_fns = [b for b in ctx.facts.fn_bodies() if direct_sites(b, r"^alloc::alloc::dealloc$")]
+    if len(inc) == 1 and len(dec) == 1 and len(free_fns) == 1:
+        c03.r3_1(ctx, R, inc, dec, free_fns[0])
+        ctor = c03.alloc_fn(ctx)
+        cf = ctx.flow(ctor)
+        lay = None
+        for bb, t, fn in direct_sites(ctor, r"^alloc::alloc::alloc$"):
+            e = cf.operand_expr(t["args"][0])
+            if e[0] == "call" and e[1] in ctx.facts.bodies:
+                lay = ctx.facts.bodies[e[1]]
+        if lay is not None:
+            c03.r3_4(ctx, R, dec, free_fns, lay)
+        ctx.rule("R3.1", "see C03 R3.1 (shared): waker reference-count protocol")
+        ctx.rule("R3.4", "see C03 R3.4 (shared): the waker allocation is freed exactly once, by the last owner")
+    else:
+        ctx.ob("R3.1", "<crate>", "rc-functions-identified", False, "", "inc %d dec %d free %d" % (len(inc), len(dec), len(free_fns)))
